@@ -41,6 +41,16 @@ NOTES = {
              'followed by blocks of different alignment (dyn A, x, dyn B, y)',
     'C04_7': 'the raw header is C08\'s observation point (C04 compares model, Python statics and encoded_byte_size)',
     'C08_6': 'needs an included file: C16 compares the model nodes of the multi-file build with the single-file build',
+    'C14_5': 'right shift of negative values admitted to the expression universe (was excluded together with negative division)',
+    'C15_5': 'include shadowing family: a file that redefines a struct / constant of a file it includes, every order',
+    'C15_6': 'expression forms that start with a literal (2*K, 1 + E_V)',
+    'C15_7': 'NOT caught: needs the same name defined twice in one file; definition sets have distinct names',
+    'C16_5': 'arrangement with a library directory and decoy files next to the main file, main file compiled alone '
+             '(earlier inputs of the same run otherwise answer from the cache)',
+    'C16_6': 'file names equal to the first type they define (Point.prophy defines Point)',
+    'C16_7': 'C++ outputs requested too; every generated header must compile on its own',
+    'C17_6': 'patch files whose rules are keyed on the new name of a renamed message (both orders), rename + retype chains',
+    'C17_7': 'typedefs (one and two levels) of a struct that is dynamic only through a nested dynamic struct',
     'C12_5': 'every rule breaker also as second input of a run whose first file uses the same names harmlessly',
     'C12_7': 'bisection of failing batches capped (the run took hours when nearly every state failed to compile)',
 }
@@ -76,7 +86,7 @@ def main():
                 status += '; silent: ' + ', '.join(missed)
         rows.append('| %s | %s | %s | %s |' % (sid, first_sentence(meta['what_and_needs']).replace('|', '/'), status,
                                               NOTES.get(sid, '-')))
-        if det and own not in caught and sid not in ('C04_4', 'C04_6', 'C04_7', 'C08_6', 'C17_3'):
+        if det and own not in caught and sid not in ('C04_4', 'C04_6', 'C04_7', 'C08_6', 'C17_3', 'C15_7'):
             print('NOTE: %s not caught by its own check %s' % (sid, own))
     table = ('| seed | change | caught by (quick tier; violation class keys) | needed strengthening |\n|---|---|---|---|\n'
              + '\n'.join(rows) + '\n')
